@@ -19,21 +19,24 @@ import (
 type KH struct {
 	Bulks   [][]string `json:"bulks"`    // the stream of insertions
 	DelayMs int        `json:"delay_ms"` // SIGKILL this long after the stream started
-	Tail    []rig.Step `json:"tail"`
+	// AfterFirst: count the delay from the moment the first insertion (the big bulk) has been
+	// acknowledged, so that the crash hits a node that already holds a big tree
+	AfterFirst bool       `json:"after_first,omitempty"`
+	Tail       []rig.Step `json:"tail"`
 }
 
-const ruleKill = "wall-clock crash class: a single-node RaftNode (executor child) runs a background stream of 10-60 insertions (single or bulk up to 4; one stream in three starts with a bulk of 1001-1600 events, and is killed after 0-2500 ms), journalling 'sent i' / 'acked i at version v' to an append-only file; the parent SIGKILLs the child after a drawn delay (0-300 ms), restarts the node on the same directories and lets it replay. Oracle (independent of where the kill landed): the recovered version V satisfies acknowledged <= V <= acknowledged + the one insertion in flight; V is a whole number of insertions (no partial bulk); the first V events of the stream are exactly the log (membership of each at its own version verifies against the reference model's digests, the next stream event is unknown); three more insertions are acknowledged with the reference digests. evaluations = kills. Non-trivial: the kill landed while the stream was running (some but not all insertions acknowledged). distinct = FNV-64 of the case (+ observed landing point)."
+const ruleKill = "wall-clock crash class: a single-node RaftNode (executor child) runs a background stream of 10-60 insertions (single or bulk up to 4; one stream in two starts with a bulk of 1100-1600 events, and is killed 0-2500 ms after the start or 0-300 ms after that bulk was acknowledged), journalling 'sent i' / 'acked i at version v' to an append-only file; the parent SIGKILLs the child after a drawn delay (0-300 ms), restarts the node on the same directories and lets it replay. Oracle (independent of where the kill landed): the recovered version V satisfies acknowledged <= V <= acknowledged + the one insertion in flight; V is a whole number of insertions (no partial bulk); the first V events of the stream are exactly the log (membership of each at its own version verifies against the reference model's digests, the next stream event is unknown); three more insertions are acknowledged with the reference digests. evaluations = kills. Non-trivial: the kill landed while the stream was running (some but not all insertions acknowledged). distinct = FNV-64 of the case (+ observed landing point)."
 
 func TestKillAnytime(t *testing.T) {
 	rec := pbt.NewRec("C07", "TestKillAnytime", ruleKill, "SIGKILL keeps the page cache: no torn writes")
 	pbt.Run(t, rec, func(rt *rapid.T) KH {
 		var h KH
 		seq := 0
-		// one workload in three starts with a bulk above the 1000-entry page with which a
+		// one workload in two starts with a bulk above the 1000-entry page with which a
 		// restarted node re-reads its recovery tiles: recovery then runs on a big tree
 		big := 0
-		if rapid.IntRange(0, 2).Draw(rt, "big") == 0 {
-			big = rapid.SampledFrom([]int{1001, 1300, 1600}).Draw(rt, "big-n")
+		if rapid.Bool().Draw(rt, "big") {
+			big = rapid.SampledFrom([]int{1100, 1300, 1600}).Draw(rt, "big-n")
 			var b []string
 			for j := 0; j < big; j++ {
 				b = append(b, fmt.Sprintf("k-%d", seq))
@@ -51,7 +54,9 @@ func TestKillAnytime(t *testing.T) {
 		}
 		h.DelayMs = rapid.IntRange(0, 300).Draw(rt, "delay")
 		if big > 0 {
-			h.DelayMs = rapid.IntRange(0, 2500).Draw(rt, "delay-big")
+			if h.AfterFirst = rapid.IntRange(0, 2).Draw(rt, "after-first") != 0; !h.AfterFirst {
+				h.DelayMs = rapid.IntRange(0, 2500).Draw(rt, "delay-big")
+			}
 		}
 		h.Tail = rig.DrawAdds(rt, 3, 3, "kt")
 		return h
@@ -85,6 +90,14 @@ func execKill(h KH, rec *pbt.Rec) error {
 	journal := dir + "/journal"
 	if _, err := x.Call(&xp.Req{Op: "node-stream", Name: "n", Path: journal, Chunks: chunks}, 10*time.Second); err != nil {
 		return un("stream: %v", err)
+	}
+	if h.AfterFirst {
+		for i := 0; i < 3000; i++ {
+			if b, err := os.ReadFile(journal); err == nil && strings.Contains(string(b), "A 0 ") {
+				break
+			}
+			time.Sleep(20 * time.Millisecond)
+		}
 	}
 	time.Sleep(time.Duration(h.DelayMs) * time.Millisecond)
 	x.Kill()
